@@ -257,6 +257,7 @@ type prioSys struct {
 	tryRecv  func() (Dlv, recvStatus)
 	outLen   func() int
 	outCap   int
+	fbLen    func() int                         // v1: feedback writes the discipline has not consumed yet (harness-owned channel); nil otherwise
 	release  func(d Dlv, abort <-chan struct{}) // may block; called from its own goroutine
 	errCh    <-chan error
 
@@ -368,6 +369,7 @@ func buildPrio(b prioBuild) (*prioSys, error) {
 			case <-abort:
 			}
 		}
+		s.fbLen = func() int { return len(fb) }
 		s.stop, s.graceful, s.cancel = d.Stop, d.GracefulStop, cancel
 		s.addInput = func(in *pInput) { d.AddInput(in.ch, in.P) }
 		s.removeInput = d.RemoveInput
